@@ -31,9 +31,12 @@ def r1_header_map(ctx):
         actual = dict(e[3])
         where = body.where(bi, si)
         # `previous` = hash of the header stored at height − 1, or the default hash at height 0 — spelled with combinators or with a match
-        PREV_MATCH = "phi(<tmelcrypt::HashVal as std::default::Default>::default() | Header::hash(Option::unwrap(SmtMapping::get($1.0.history, try(core::num::<impl u64>::checked_sub($1.0.height.0, 1))))))"
-        prev_ok = {"Option::unwrap_or_default(Option::map(core::num::<impl u64>::checked_sub($1.0.height.0, 1), closure[inner=$1.0]))", PREV_MATCH}
-        prev_inline = sig(q.novers(dict(mir.strip(e)[3]).get("previous", ("unknown", "")))) == PREV_MATCH
+        PREV_MATCH = "phi([0; 32] | Header::hash(Option::unwrap(SmtMapping::get($1.0.history, try(core::num::<impl u64>::checked_sub($1.0.height.0, 1))))))"
+        PREV_JOIN = "Option::unwrap_or(core::num::<impl u64>::checked_sub($1.0.height.0, 1), [0; 32])"
+        PREV_MATCH2 = "phi(Header::hash(Option::unwrap(SmtMapping::get($1.0.history, try(core::num::<impl u64>::checked_sub($1.0.height.0, 1))))) | [0; 32])"
+        prev_ok = {"Option::unwrap_or(Option::map(core::num::<impl u64>::checked_sub($1.0.height.0, 1), closure[inner=$1.0]), [0; 32])",
+                   "Option::unwrap_or_default(Option::map(core::num::<impl u64>::checked_sub($1.0.height.0, 1), closure[inner=$1.0]))", PREV_MATCH, PREV_MATCH2}
+        prev_inline = sig(q.novers(dict(mir.strip(e)[3]).get("previous", ("unknown", "")))) in (PREV_MATCH, PREV_MATCH2)
         table = {
             "network": "$1.0.network", "height": "$1.0.height",
             "fee_pool": "$1.0.fee_pool", "fee_multiplier": "$1.0.fee_multiplier", "dosc_speed": "$1.0.dosc_speed",
@@ -295,10 +298,17 @@ def r6_stake_commitment(ctx):
             loops = [l for l in q.loop_with_source(b, lambda s_: True) if bi in l[1]]
             r.check([sig(l[3]) for l in loops] == [SRC], "loop", "loops over all of self.stakes", "the insert sits in loops over %s" % [sig(l[3]) for l in loops], "%s:%s" % (b.file, b.line))
             el0, el1 = "elem(%s).0" % SRC, "elem(%s).1" % SRC
+            for l in loops:
+                entry = q.loop_entry(b, l[0], l[1])
+                wo = b.reachable(entry, removed=[bi])
+                r.check(not any(x in wo for x in l[2]), "every", "every stake gets its leaf", "a stake can be skipped: the next iteration is reachable without the insert — the commitment "
+                        "no longer reflects every registered stake", b.where(bi))
         else:
             fe = [x for b2, x in q.call_exprs(b, "for_each") if x[2][1][0] == "closure" and x[2][1][1] == c.nname]
             r.check(len(fe) == 1 and sig(mir.strip(fe[0][2][0])) == SRC, "loop", "for_each over all of self.stakes", "the insert sits in a closure that is not for_each over self.stakes (%s)" % [sig(x)[:80] for x in fe])
             el0, el1 = "$2.0", "$2.1"
+            wo = c.reachable(0, removed=[bi])
+            r.check(not any(x in wo for x in c.return_blocks()), "every", "every stake gets its leaf", "a stake can be skipped: the per-stake closure can return without the insert", c.where(bi))
         r.check(sig(e[2][1]) == "tmelcrypt::hash_single(StdcodeSerializeExt::stdcode(%s)).0" % el0, "key", "key = hash(stdcode(txhash))", "key = %s" % sig(e[2][1]), c.where(bi))
         r.check(sig(e[2][2]) == "StdcodeSerializeExt::stdcode(%s)" % el1, "value", "value = stdcode(doc)", "value = %s" % sig(e[2][2]), c.where(bi))
     defs = q.var_def_exprs(b, "tree")
@@ -316,6 +326,10 @@ def shared(ctx):
     core.import_rules(ctx, [c03.r4_commitment_order], "X03")          # "every block transaction can be proven present": positions are taken from the ORDERED transaction set
     from rules.props import c06
     core.import_rules(ctx, [c06.r5_activation_table], "X06")          # which transaction commitment the header carries is decided by TIP-908
+    # 'headers chain together' also for a node that restarted: a state rebuilt from a block must commit to that very block's header (every field restored from the
+    # same-named header field, C08.R1) — otherwise its next history entry, `previous` hash and header differ from those of the chain
+    from rules.props import c08
+    core.import_rules(ctx, [c08.r1_reconstruction_map], "X08")
 
 
 RULES = [r1_header_map, r2_chain_step, r3_network_write_once, r4_key_agreement, r5_tx_commitment, r6_stake_commitment, shared]
